@@ -1392,20 +1392,25 @@ impl<'a, const C: usize, const R: usize, T: 'a + Copy + std::fmt::Debug> Layout<
         let custom = self.process_extra_waitings(custom);
         self.process_sequence_custom(custom)
     }
-    /// Only one custom event can be reported per tick. A release that meets a release which is
-    /// already going to be reported must not be lost, or the mouse button, scrolling etc. that it
-    /// ends stays on forever. It is kept as a state that `process_sequence_custom` reports on a
-    /// later tick.
+    /// Only one custom event can be reported per tick. An event that meets one which is already
+    /// going to be reported must not be lost: a lost release leaves the mouse button, scrolling
+    /// etc. that it ends on forever, and a lost press loses the effect of actions that act on the
+    /// press (e.g. releasing a virtual key). It is kept as a state that `process_sequence_custom`
+    /// reports on a later tick.
     fn update_or_postpone_release(
         &mut self,
         custom: &mut CustomEvent<'a, T>,
         new: CustomEvent<'a, T>,
     ) {
         match (&*custom, new) {
-            (CustomEvent::Release(_), CustomEvent::Release(value)) => {
+            (_, CustomEvent::NoEvent) => {}
+            (CustomEvent::NoEvent, new) => *custom = new,
+            (_, CustomEvent::Release(value)) => {
                 let _ = self.states.push(State::SeqCustomActive(value));
             }
-            (_, new) => custom.update(new),
+            (_, CustomEvent::Press(value)) => {
+                let _ = self.states.push(State::SeqCustomPending(value));
+            }
         }
     }
     /// Removes the states of a released coordinate. See `update_or_postpone_release`: when more
@@ -1785,11 +1790,13 @@ impl<'a, const C: usize, const R: usize, T: 'a + Copy + std::fmt::Debug> Layout<
                 }
                 if let Some(ac) = self.rpt_action.take() {
                     let queued_before = self.action_queue.len();
-                    self.do_action(ac, coord, delay, is_oneshot, &mut std::iter::empty());
+                    let custom =
+                        self.do_action(ac, coord, delay, is_oneshot, &mut std::iter::empty());
                     self.rpt_queued_actions_pending = self.action_queue.len() != queued_before;
                     if self.rpt_action.is_none() {
                         self.rpt_action = Some(ac);
                     }
+                    return custom;
                 }
             }
             HoldTap(HoldTapAction {
@@ -1905,7 +1912,7 @@ impl<'a, const C: usize, const R: usize, T: 'a + Copy + std::fmt::Debug> Layout<
                                 }
                             }
                         };
-                        self.do_action(td.actions[0], coord, delay, false, layer_stack);
+                        return self.do_action(td.actions[0], coord, delay, false, layer_stack);
                     }
                 }
             }
@@ -2010,13 +2017,9 @@ impl<'a, const C: usize, const R: usize, T: 'a + Copy + std::fmt::Debug> Layout<
                 self.last_press_tracker.update_coord(coord);
                 let mut custom = CustomEvent::NoEvent;
                 for action in *v {
-                    custom.update(self.do_action(
-                        action,
-                        coord,
-                        delay,
-                        is_oneshot,
-                        &mut layer_stack.clone(),
-                    ));
+                    let ev =
+                        self.do_action(action, coord, delay, is_oneshot, &mut layer_stack.clone());
+                    self.update_or_postpone_release(&mut custom, ev);
                 }
                 // Save the whole multi action instead of the final action in multi so that Repeat
                 // repeats all of the actions in this multi.
